@@ -120,6 +120,19 @@ def gen_cases(tier, seed):
         if r.random() < 0.5:
             sched = [t for t in sched for _ in range(r.choice([1, 1, 2, 3]))]
         add(mode, progs, sched + drain_suffix(len(progs), 8 * max(len(p) for p in progs) + 12), "random-heartreq-%s" % mode)
+    # a transport that accepts part of a burst, then nothing for a long time (the peer does not read), then drains: the
+    # writer keeps the lock for the whole burst however long that takes, the writer queued behind it starts afterwards,
+    # nothing is torn and nobody gives up (seed C11-7 bounded the write by a timer and let the queued writer into the
+    # middle of the frame). Oracle only (the model's stall is permanent: C09 / F4); virtual time
+    for i, (k, nap) in enumerate([(0, 45000), (5, 45000), (150, 45000), (1100, 100000), (150, 5000), (2000, 31000), (150, 0), (7, 600000)]):
+        if tier == "quick" and i >= 6:
+            break
+        progs = [[], ["O", "B0"], ["O", "B0"], ["STALL:%d" % k] + (["SLEEP:%d" % nap] if nap else []) + ["UNSTALL"],
+                 ["W:2:44:" + payload(4, 0, True)], ["W:2:45:" + payload(5, 0, True), "W:2:45:" + payload(5, 1)]]
+        # both opens complete; the peer stops reading; task 4's burst gets stuck k bytes in; task 5 queues behind it;
+        # time passes; the peer reads again; everybody finishes
+        sched = [1] * 24 + [2] * 24 + [3] + [4] * 10 + [5] * 10 + [3, 3] + drain_suffix(6, 30)
+        cs.append(Case("sd%d" % i, "conc", render("plain", progs, sched), "stall-then-drain", True, {"ntasks": 6}, model=False))
     # multi-threaded start-up stress (heartbeat enabled): no model side, oracle only
     for i in range(4 if tier == "quick" else 16):
         cs.append(Case("mt%d" % i, "mtstart", [150 if tier == "quick" else 1000], "mt-startup-stress", True, model=False))
@@ -215,6 +228,9 @@ def oracle(c, ir):
                         return "stream of task %d: the application sent %s, the wire carries %s (forwarding task idle, channel must be empty)" % (t, want, got)
     # packet numbering follows transport order (C05 ordering clause)
     idx = [i for i, _ in o["bursts"]]
+    if c.kind == "stall-then-drain":
+        # the stall cuts a record write in two, so the harness cannot read the packet number off the first write's length
+        idx = list(range(1, len(idx) + 1))
     if idx != list(range(1, len(idx) + 1)):
         return "bursts were shaped with packet numbers %s, expected 1..%d in transport order" % (idx, len(idx))
     return None
